@@ -32,6 +32,7 @@ import CtyModel.Lemmas.d17MsgpackAlloc
 import CtyModel.Lemmas.d17AllocSites
 import CtyModel.Lemmas.d17JsonDepth
 import CtyModel.Generated.Limits
+import CtyModel.Lemmas.MpUnknownFnsTie
 
 namespace CtyModel.C17
 open Msgpack D17 Refine
@@ -403,5 +404,67 @@ example :
     (match jsonImpliedTop jenv0 3 (.arr [.arr [.obj ["a"] [.num "1"]]]) with | .ok t => t.equals (.tuple [.tuple [.object ["a"] [.number] [false]]]) | _ => false) = true ∧
     (match jsonImpliedTop jenv0 3 (.arr [.arr [.obj ["a"] [.arr []]]]) with | .err _ => true | _ => false) = true ∧
     jnest (.arr [.arr [.obj ["a"] [.arr []]]]) = 4 := by decide +kernel
+
+/-! ## The regenerated decoder (cty/msgpack/unknown.go `unmarshalUnknownValue`, translated on every check)
+
+`Generated.MpUnknownFns.unmarshalUnknownValue` (and its loop helper) is derived from the SOURCE on every
+run of `./check` by `extract/translate_mpunknown.go` (given API: `CtyModel/MpGo.lean`).  The guards it
+passes before the refinement map is read are proved of it for ALL inputs; the replay of the map is tied
+to `D17.unmarshal` on a battery of items by evaluation (`Lemmas/MpUnknownFnsTie.decoder_battery_agrees`). -/
+
+/-- `msgpack_unknown_never_panics`, about the regenerated decoder: whatever the decoder is positioned at
+and whatever type is requested, the translated `unmarshalUnknownValue` does not panic (its first
+statement is the deferred `recover()`, which the translator accepts in exactly that shape). -/
+theorem msgpack_unknown_never_panics_generated [EqOracle] (E : Ext) (d : MpGo.Dec) (ty : Ty) (w : String) :
+    Generated.MpUnknownFns.unmarshalUnknownValue E d ty ≠ .panic w :=
+  MpUnknownFnsTie.dec_never_panics E d ty w
+
+/-- `msgpack_oversize_extension_refused`, about the regenerated decoder: an extension body longer than
+the limit of the source is an error whatever its type code, content and requested type — the size test
+comes before the body is read. -/
+theorem msgpack_oversize_extension_refused_generated [EqOracle] (E : Ext) (code : Int) (len : Nat) (hdr : ExtHdr)
+    (stream : List Item) (ty : Ty) (h : len > Generated.msgpackMaxExtLen) :
+    ∃ c, Generated.MpUnknownFns.unmarshalUnknownValue E (.atItem (.ext code len hdr stream)) ty = .err c :=
+  MpUnknownFnsTie.dec_oversize E code len hdr stream ty h
+
+/-- … a body of at most one byte is the unrefined unknown value of the requested type, under any type code. -/
+theorem msgpack_plain_unknown_generated [EqOracle] (E : Ext) (code : Int) (len : Nat) (hdr : ExtHdr)
+    (stream : List Item) (ty : Ty) (h : len ≤ 1) :
+    Generated.MpUnknownFns.unmarshalUnknownValue E (.atItem (.ext code len hdr stream)) ty = .ok (.v (Value.unknown ty)) :=
+  MpUnknownFnsTie.dec_small E code len hdr stream ty h
+
+/-- `known_length_list_refused` and its neighbours, about the regenerated decoder (the witnesses of
+`C16.known_length_list_regression` and of the repaired finding): a not-null list refinement whose length
+bounds meet at 2, or at 2^22, is an ERROR; the same bounds without "not null", different bounds, and
+the same map for a SET still decode to an unknown value; a zero upper length bound is accepted. -/
+theorem known_length_list_refused_generated :
+    (match @Generated.MpUnknownFns.unmarshalUnknownValue textOracle mext0
+        (.atItem (.ext 12 7 (.map 3) [.int 1, .bool false, .int 5, .int 2, .int 6, .int 2])) (.list .string) with
+      | .err _ => true | _ => false) = true ∧
+    (match @Generated.MpUnknownFns.unmarshalUnknownValue textOracle mext0
+        (.atItem (.ext 12 13 (.map 3) [.int 1, .bool false, .int 5, .uint 4194304, .int 6, .uint 4194304])) (.list .string) with
+      | .err _ => true | _ => false) = true ∧
+    (match @Generated.MpUnknownFns.unmarshalUnknownValue textOracle mext0
+        (.atItem (.ext 12 5 (.map 2) [.int 5, .int 2, .int 6, .int 2])) (.list .string) with
+      | .ok g => !RefineGo.isKnown g | _ => false) = true ∧
+    (match @Generated.MpUnknownFns.unmarshalUnknownValue textOracle mext0
+        (.atItem (.ext 12 7 (.map 3) [.int 1, .bool false, .int 5, .int 2, .int 6, .int 3])) (.list .string) with
+      | .ok g => !RefineGo.isKnown g | _ => false) = true ∧
+    (match @Generated.MpUnknownFns.unmarshalUnknownValue textOracle mext0
+        (.atItem (.ext 12 7 (.map 3) [.int 1, .bool false, .int 5, .int 2, .int 6, .int 2])) (.set .string) with
+      | .ok g => !RefineGo.isKnown g | _ => false) = true ∧
+    (match @Generated.MpUnknownFns.unmarshalUnknownValue textOracle mext0
+        (.atItem (.ext 12 3 (.map 1) [.int 6, .int 0])) (.list .string) with
+      | .ok g => !RefineGo.isKnown g | _ => false) = true := by
+  decide +kernel
+
+/-- The regenerated decoder and the hand-written `D17.unmarshal` compute the same outcome on the battery of
+`Lemmas/MpUnknownFnsTie.lean` (49 extension items × 9 requested types × both equality oracles): every
+refinement key under every type guard, contradictory nullness, crossed and meeting bounds, malformed
+keys and values, unknown keys, short streams. -/
+theorem msgpack_refinement_replay_generated_agrees :
+    (MpUnknownFnsTie.batItems.all fun it => MpUnknownFnsTie.batTys.all fun ty =>
+      MpUnknownFnsTie.agree textOracle MpUnknownFnsTie.batE it ty && MpUnknownFnsTie.agree partialOracle MpUnknownFnsTie.batE it ty) = true :=
+  MpUnknownFnsTie.decoder_battery_agrees
 
 end CtyModel.C17
